@@ -14,6 +14,7 @@ ASSUMPTIONS = ["exact-regime theorems over R; tolerance bands are sampled, not p
 # each ATOL decision (band shortcut or filtered near-identity gate) costs at most 1e-7 in the operator; a proposal has at
 # most 8 gates: a residual up to 8e-7 is tolerance-sized, anything larger is a different defect
 BAND_RESIDUAL = 8e-7
+BAND_FLOOR = 9e-9
 
 
 def _first_failing_gate(f):
@@ -55,7 +56,9 @@ def cls_atol_band(f):
     if g is None:
         return False
     d, _ = _proposal_distance(g, f["case"]["pass"][1])
-    return d is not None and d <= BAND_RESIDUAL
+    # ... and not closer than the checker's own absolute tolerance: a refusal of a proposal that is right to 1e-8
+    # is another defect (the checker rejecting what it should accept), never this finding
+    return d is not None and BAND_FLOOR <= d <= BAND_RESIDUAL
 
 
 def cls_cnot_lemma55(f):
